@@ -1,7 +1,7 @@
 package checks
 
 // C05 — compilation and error display terminate cleanly on every input.
-// E1: every symbol sequence <= L over a 34-symbol alphabet (keywords as units,
+// E1: every symbol sequence <= L over a 35-symbol alphabet (keywords as units,
 // all punctuation, quotes, backtick, white space, CR/LF, NUL, NEL, astral);
 // every single-rune truncation / deletion / duplication / insertion of a corpus
 // of valid programs (and all pairs on a subset); the same through ExecVarInputText.
@@ -25,7 +25,7 @@ var c05Alpha = []string{
 	"如果", "令", "拦截", "输出", "以", "遍历",
 	"：", "？", "！", "【", "】", "（", "）", "{", "}", "、", "，", "；",
 	"“", "”", "`", " ", "\t", "\r", "\n", "\n    ",
-	"甲", "1", "+", "=", "#", "\x00", "\u0085", "\U0001F600",
+	"甲", "1", "+", "=", "#", "\x00", "\u0085", "\U0001F600", "￥",
 }
 
 var c05Sub = []string{"如果", "令", "拦截", "以", "：", "？", "【", "（", "）", "“", "`", "\n    ", "\n", "甲", "=", "注"}
@@ -151,7 +151,7 @@ func init() {
 	mc.Register(&mc.Check{
 		ID:    "C05",
 		Level: "exploration",
-		Rule:  "E1 exhaustive: (a) every sequence of <= L symbols over a 34-symbol alphabet (6 keywords as units, all 12 punctuation marks, quotes, backtick, space, TAB, CR, LF, newline+indent, a name, a digit, + = #, NUL, U+0085, an astral character); (b) for every program of a corpus of valid renderings: truncation at every offset, deletion and duplication of every rune, insertion of every alphabet symbol at every offset (and all pairs of deletions on a subset); (c) the same inputs through ExecVarInputText, each text submitted twice in one process (termination; the second submission is answered like the first); (e) deep nesting: 6 opening constructs ({ 【 a call, 以-chain, unary minus, 1 + {) repeated 1 .. 2 000 000 times around one operand, closed and unclosed: a tree or a positioned syntax error, and the process survives; (d) long lines: 14 faulty tails behind 6 kinds of padding (a long text, a long name, a long sum, blanks, a long comment, a long list) of every width 0..160 (0..400 thorough) on the only line, on the last line and on a middle line. Oracle: terminates (watchdog), returns a tree xor a *SyntaxError with code != 0 and 0 <= position <= length, any returned tree passes the completeness walker, DisplayError succeeds and quotes a line of the source. Distinct by construction; non-trivial = not parsed successfully or longer than one symbol.",
+		Rule:  "E1 exhaustive: (a) every sequence of <= L symbols over a 35-symbol alphabet (6 keywords as units, all 12 punctuation marks, quotes, backtick, space, TAB, CR, LF, newline+indent, a name, a digit, + = #, NUL, U+0085, an astral character); (b) for every program of a corpus of valid renderings: truncation at every offset, deletion and duplication of every rune, insertion of every alphabet symbol at every offset (and all pairs of deletions on a subset); (c) the same inputs through ExecVarInputText, each text submitted twice in one process (termination; the second submission is answered like the first); (f) statement headers: every small expression (12 kinds) alone, in pairs and (6 kinds) in triples in the name slots of 以…遍历, 令, 输入, 得到, 如何, 恒为, 定义, 抛出; (e) deep nesting: 6 opening constructs ({ 【 a call, 以-chain, unary minus, 1 + {) repeated 1 .. 2 000 000 times around one operand, closed and unclosed: a tree or a positioned syntax error, and the process survives; (d) long lines: 14 faulty tails behind 6 kinds of padding (a long text, a long name, a long sum, blanks, a long comment, a long list) of every width 0..160 (0..400 thorough) on the only line, on the last line and on a middle line. Oracle: terminates (watchdog), returns a tree xor a *SyntaxError with code != 0 and 0 <= position <= length, any returned tree passes the completeness walker, DisplayError succeeds and quotes a line of the source. Distinct by construction; non-trivial = not parsed successfully or longer than one symbol.",
 		Assumptions: []string{
 			"a recovered Go runtime error leaking out of Parser.Parse as the error value is counted as a violation (it is not a syntax error with a position)",
 			"hang = no result for 20 s on an input whose normal cost is microseconds; confirmed in a fresh process",
@@ -313,6 +313,41 @@ func c05Run(c *mc.Ctx) {
 		report(c05Check(c05LongLine(k, K), "long-line"))
 		c.Eval(true)
 		c.Stat("long_line_cases", 1)
+	}
+	// (f) statement headers with operands of the wrong kind: every pair / triple of small
+	// expressions in the name slots of 以…遍历, 令, 输入, 得到, 如何 — a complete tree or a syntax error
+	{
+		ops := []string{"甲", "甲#1", "“甲”", "【1】", "1", "甲之乙", "（甲）", "以甲（乙）", "真", "甲 + 1", "{甲}", "`甲`"}
+		var heads []string
+		for _, x := range ops {
+			heads = append(heads, "以"+x+"遍历【1，2】：\n    输出1", "令"+x+" = 1", "输入"+x, "（法：1）得到"+x, "如何"+x+"？\n    输出1", "令"+x+"恒为1", "定义"+x+"：\n    其P = 1", "抛出"+x+"：1！")
+			for _, y := range ops {
+				heads = append(heads, "以"+x+"、"+y+"遍历【1，2】：\n    输出1", "令"+x+"、"+y+" = 1", "输入"+x+"、"+y, "如何法？\n    输入"+x+"、"+y+"\n    输出1")
+			}
+		}
+		for _, x := range ops[:6] {
+			for _, y := range ops[:6] {
+				for _, z := range ops[:6] {
+					heads = append(heads, "以"+x+"、"+y+"、"+z+"遍历【1，2】：\n    输出1")
+				}
+			}
+		}
+		hb := base + total
+		c.Describe = func(i int64) json.RawMessage {
+			s := []rune(heads[i-hb])
+			return mc.J(c05Case{Part: "header", Source: string(s), Runes: toInts(s)})
+		}
+		for k := range heads {
+			if !c.Mine(hb + int64(k)) {
+				continue
+			}
+			c.CaseIdx(hb + int64(k))
+			report(c05Check([]rune(heads[k]), "header"))
+			c.Eval(true)
+			c.Stat("statement_header_cases", 1)
+		}
+		total += int64(len(heads))
+		c.Bound("statement_headers", fmt.Sprintf("complete: %d headers", len(heads)))
 	}
 	// (e) deep nesting: every opening bracket kind repeated N times around one operand (closed
 	// and unclosed), N up to two million: a tree or a syntax error, and the process survives
